@@ -53,10 +53,11 @@ pub fn flat_oob<S: Source>(s: &mut S, rank: usize, max: usize) {
     chk!(false, "[c16:refusal-missing] an out-of-range flat index was accepted");
 }
 
-/// `Array::from((dims, values))` with symbolic dims (0 allowed) and symbolic length:
-/// succeeds iff every extent >= 1 and the product equals the length (`expect_ok`
+/// `Array::from((dims, values))` with symbolic dims (0 allowed) against a value vector of
+/// `len` elements (concrete per obligation - vectors of symbolic length do not encode within
+/// reach): succeeds iff every extent >= 1 and the product equals the length (`expect_ok`
 /// selects which side of the iff this obligation decides).
-pub fn from_dims_values<S: Source>(s: &mut S, rank: usize, max: usize, expect_ok: bool) {
+pub fn from_dims_values<S: Source>(s: &mut S, rank: usize, max: usize, len: usize, expect_ok: bool) {
     let mut dims = Vec::with_capacity(rank);
     let mut n = 1usize;
     let mut all_pos = true;
@@ -66,7 +67,6 @@ pub fn from_dims_values<S: Source>(s: &mut S, rank: usize, max: usize, expect_ok
         dims.push(d);
         n *= d;
     }
-    let len = s.size(max * max + 2);
     let valid = all_pos && n == len;
     #[cfg(kani)]
     kani::assume(valid == expect_ok);
